@@ -7,6 +7,8 @@
 package c03
 
 import (
+	"os"
+
 	"verifharness/core"
 )
 
@@ -16,6 +18,9 @@ func Run(r *core.Run) {
 	r.Assume("V8 (Node 20) implements ECMAScript on the generated fragment; where JsSem/JsFold and V8 disagree on the INPUT program the case is reported as drift and excluded")
 	r.Assume("finite results of ** and folds whose exact value needs non-integer float arithmetic are judged by V8 only (DESIGN.md section 6)")
 	r.Assume("the probe host (p, o, G, parameters) is the only observable channel: calls with arguments, property traffic on the recorder object, valueOf calls, thrown exception class, completion value")
-	foldBinding(r)
+	if os.Getenv("C03_SKIP_FOLD") == "" {
+		foldBinding(r)
+	}
+	programBinding(r, map[bool]string{false: "JsSemGen.quick.cfg", true: "JsSemGen.thorough.cfg"}[r.Thorough()])
 	r.Set("rule", "fold: every (operator, a, b) over the 22-value boundary grid in each compile-time-evaluation context; programs: TLC-generated expression trees / statement skeletons with probe leaves x environments; non-trivial = the program matches >= 1 peephole pattern class of JsSem and the minified output differs textually from the unminified print; distinct by (program, options)")
 }
